@@ -4,14 +4,14 @@
 (a check that was strengthened after a miss is re-run)."""
 import json, os, re, sys, glob
 V = os.path.dirname(os.path.dirname(os.path.abspath(__file__)))
-logs = sys.argv[1:] or [os.path.join(V, '.run/logs', n) for n in ('mut_results.txt', 'mut_results2.txt', 'mut_results3.txt', 'mut_results4.txt', 'mut_regress.txt', 'mut_results5.txt', 'mut_regress2.txt')]
+logs = sys.argv[1:] or [os.path.join(V, '.run/logs', n) for n in ('mut_results.txt', 'mut_results2.txt', 'mut_results3.txt', 'mut_results4.txt', 'mut_regress.txt', 'mut_results5.txt', 'mut_regress2.txt', 'mut_results6.txt')]
 res, hist = {}, {}
 lines = []
 for log in logs:
     if os.path.exists(log):
         lines += open(log, errors='replace').read().split('\n')
 for line in lines:
-    m = re.match(r'^(\S+-[a-j]|self-\S+) (C\d\d) rc=(\d+)\s*(?:VIOLATION \S+ \S+\s+fingerprint: (.*?)\s+cases: (\d+))?', line)
+    m = re.match(r'^(\S+-[a-k]|self-\S+) (C\d\d) rc=(\d+)\s*(?:VIOLATION \S+ \S+\s+fingerprint: (.*?)\s+cases: (\d+))?', line)
     if not m:
         continue
     seed, chk, rc, fp, n = m.groups()
